@@ -1322,6 +1322,8 @@ def plainBytes : List Nat → List Line
 def emitDataVar (fcommon : Bool) (var : Obj) : Except String (List Line) := do
   let v := var.v
   if v.isFunction || !v.isDefinition then return []
+  -- Data of a function that is not emitted would only leave dangling references (/repo 35df197).
+  if var.ownerDead then return []
   let name := cstr v.name
   let some ty := v.ty | .error "NULL dereference: var->ty"
   let head := if v.isStatic then Line.raw s!"  .local {name}" else Line.raw s!"  .globl {name}"
